@@ -527,9 +527,127 @@ fn odd_case(idx: u64, sink: &mut Sink<'_>) {
     sink.pass(H64::new().u(idx).get());
 }
 
+// ------------------------------------------------------------------------------------------------
+// (d) large amounts: what one flush hands over is far beyond the buffer's growth step.  Needs the
+// production buffer limit, so it runs in a child process of the main build.
+
+/// Pending totals (terminators included): one below, at and one above every power of two from 4 KiB
+/// to 1 MiB (quick: to 256 KiB), and a few sizes in between.
+fn large_totals(tier: Tier) -> Vec<usize> {
+    let mut v = Vec::new();
+    for k in 12..=tier.pick(18, 20) {
+        for d in [-1i64, 0, 1] {
+            v.push(((1i64 << k) + d) as usize);
+        }
+    }
+    v.extend([5000, 70_000, 100_000, 200_001]);
+    v
+}
+const LARGE_FORMS: [&str; 5] = ["one send_error", "one enqueue_call + flush", "many small enqueue_call + flush", "one small enqueue_call + one large send_reply", "one large enqueue_call + many small ones + flush"];
+
+fn large_case(totals: &[usize], idx: u64, sink: &mut Sink<'_>) {
+    let form = (idx % LARGE_FORMS.len() as u64) as usize;
+    let total = totals[(idx / LARGE_FORMS.len() as u64) as usize];
+    let case = || json!({"group": "large", "form": LARGE_FORMS[form], "pending_bytes_at_the_flush": total});
+    let wire = Wire::new(0, None);
+    let mut conn = wire.connection();
+    let mut m = Model::new();
+    // (kind, encoded length of the document) in order; the last operation of forms 0 and 3 flushes
+    let mut plan: Vec<(Kind, usize)> = Vec::new();
+    match form {
+        0 => plan.push((Kind::SendError, total - 1)),
+        1 => plan.push((Kind::EnqCall, total - 1)),
+        2 | 4 => {
+            let mut left = total;
+            if form == 4 {
+                plan.push((Kind::EnqCall, total / 2));
+                left -= total / 2 + 1;
+            }
+            let mut i = 0;
+            while left > 0 {
+                // documents of 90..=109 bytes; the last one takes what is left (at least 8 bytes)
+                let want = 90 + (i * 7) % 20;
+                let l = if left <= want + 1 + 9 { left - 1 } else { want };
+                plan.push((Kind::EnqCall, l));
+                left -= l + 1;
+                i += 1;
+            }
+        }
+        _ => {
+            plan.push((Kind::EnqCall, 40));
+            plan.push((Kind::SendReply, total - 42));
+        }
+    }
+    if total > 65536 {
+        sink.goal("more-than-64KiB-pending-at-one-flush");
+    }
+    if plan.len() > 100 {
+        sink.goal("hundreds-of-messages-in-one-flush");
+    }
+    for (i, (k, l)) in plan.iter().enumerate() {
+        let (res, doc) = do_msg(&mut conn, *k, *l, i);
+        if doc.len() != *l {
+            xplore::bug!("large: wanted a document of {l} bytes, built {}", doc.len());
+        }
+        if let Err(e) = res {
+            sink.fail("outframe:valid-message-refused", format!("message {i} ({k:?}, {l} bytes) returned {e:?}"), case());
+            return;
+        }
+        m.accept(doc);
+        if let Err((c, d)) = m.check(&wire, *k != Kind::EnqCall, &format!("message {i} ({k:?}, {l} bytes)")) {
+            sink.fail(c, d.chars().take(400).collect::<String>(), case());
+            return;
+        }
+    }
+    for what in ["flush", "second flush, nothing pending"] {
+        if let Err(e) = complete(conn.flush()) {
+            sink.fail("outframe:flush-failed", format!("{what}: {e:?}"), case());
+            return;
+        }
+        if let Err((c, d)) = m.check(&wire, true, what) {
+            sink.fail(c, d.chars().take(400).collect::<String>(), case());
+            return;
+        }
+    }
+    // the connection carries on: a small message afterwards is one write of its own
+    let (res, doc) = do_msg(&mut conn, Kind::SendCall, 30, 1);
+    if let Err(e) = res {
+        sink.fail("outframe:valid-message-refused", format!("small message after the large flush: {e:?}"), case());
+        return;
+    }
+    m.accept(doc);
+    if let Err((c, d)) = m.check(&wire, true, "small message after the large flush") {
+        sink.fail(c, d.chars().take(400).collect::<String>(), case());
+        return;
+    }
+    if !Model::same(&m.accepted, &wire.written()) {
+        sink.fail("outframe:stream-differs", "the whole stream is not the accepted documents each followed by one NUL".to_string(), case());
+        return;
+    }
+    if sink.wants_sample() {
+        sink.sample(case);
+    }
+    sink.steps(plan.len() as u64 + 3);
+    sink.state(H64::new().u(buf_len(&conn) as u64).get());
+    sink.pass(H64::new().u(idx).u(wire.write_count() as u64).get());
+}
+
+/// Child process of the main build (production buffer limit): prints one JSON line.
+pub fn large_child(tier: Tier, only: Option<u64>) -> i32 {
+    let totals = large_totals(tier);
+    let cfg = Config { max_wall: std::time::Duration::from_secs(600), ..Default::default() };
+    let n = (totals.len() * LARGE_FORMS.len()) as u64;
+    let st = match only {
+        Some(i) => xplore::sweep_one("large", i, &cfg, |i, s| large_case(&large_totals(Tier::Thorough), i, s)),
+        None => sweep("large", n, &cfg, |i, s| large_case(&totals, i, s)),
+    };
+    crate::common::print_child_stats(&st);
+    0
+}
+
 pub fn run(tier: Tier) -> i32 {
     let mut rep = Report::new("C02", tier.name());
-    rep.rule = "phase square: both message lengths from 1..=700 (all 490 000 pairs) x 4 operation forms (enqueue+enqueue+flush, send+send, enqueue+send, enqueue+flush+send), so every free-space value 0..=600 and every relation to the 256-byte step is met when the second message starts; phase odd-characters: every pair of payloads holding NUL / control / quote / backslash / DEL / non-ASCII / U+2028 as a char, inside a string and inside a map key x 3 operation forms (each message must carry exactly one NUL byte: its terminator); phases hist*: DFS over all operation histories up to the stated length over {enqueue_call, send_call, send_reply, send_error} x lengths chosen relative to the current free space (1, 2, 9, free-2..free+2, free+254..free+258) + flush + 4 unserializable messages (tuple map key; Serialize impl failing after 0/5/150 elements) through enqueue and through send. Outcomes are distinct (pending length, write count) sequences; states are (buffer length, pending length, writes) triples".into();
+    rep.rule = "phase square: both message lengths from 1..=700 (all 490 000 pairs) x 4 operation forms (enqueue+enqueue+flush, send+send, enqueue+send, enqueue+flush+send), so every free-space value 0..=600 and every relation to the 256-byte step is met when the second message starts; phase odd-characters: every pair of payloads holding NUL / control / quote / backslash / DEL / non-ASCII / U+2028 as a char, inside a string and inside a map key x 3 operation forms (each message must carry exactly one NUL byte: its terminator); phase large (run by the main build, production limit): one flush handing over 4 KiB .. 1 MiB (one below, at, one above every power of two; quick: to 256 KiB) built in five ways (one large message, hundreds of small ones, mixtures), then a second flush and a small message; phases hist*: DFS over all operation histories up to the stated length over {enqueue_call, send_call, send_reply, send_error} x lengths chosen relative to the current free space (1, 2, 9, free-2..free+2, free+254..free+258) + flush + 4 unserializable messages (tuple map key; Serialize impl failing after 0/5/150 elements) through enqueue and through send. Outcomes are distinct (pending length, write count) sequences; states are (buffer length, pending length, writes) triples".into();
     rep.assumptions = vec![
         "serde_json::to_vec is the meaning of `the JSON document of a message`; a write that differs in bytes but splits at NUL into documents denoting the same values is accepted here (byte identity is C03)".into(),
         "the scripted WriteHalf accepts every write completely (write faults and partial writes are C09/C19)".into(),
@@ -564,10 +682,19 @@ pub fn run(tier: Tier) -> i32 {
         let h = Histories { max_ops, reduced };
         rep.add(explore(name, json!({"max_ops": max_ops, "reduced": reduced}), &h, &cfg));
     }
+    // large amounts per flush, with the production limit (main build, child process)
+    rep.require_goal("more-than-64KiB-pending-at-one-flush");
+    rep.require_goal("hundreds-of-messages-in-one-flush");
+    if let Err(code) = crate::common::child_phase(&mut rep, "main", "outframe-large", tier, "large(child, production limit)") {
+        return code;
+    }
     rep.finish()
 }
 
 pub fn replay(v: &Value) -> Replayed {
+    if let Some(r) = crate::common::replay_child(v) {
+        return r;
+    }
     if v["kind"] == "sweep" {
         let idx = v["index"].as_u64().unwrap_or(0);
         let cfg = Config { threads: 1, ..Default::default() };
